@@ -1,6 +1,6 @@
 # coding: utf-8
 """C18 — letter case of the input sequences never changes the outcome."""
-EXTRA_OBLIGATION_FILES = ("Props/C04_src.v", "Props/C03_src.v",)
+EXTRA_OBLIGATION_FILES = ("Props/C18_src.v", "Props/C04_src.v", "Props/C03_src.v",)
 
 from harness import common, gens
 from harness.props import C02, C03
